@@ -1,0 +1,18 @@
+//go:build verif
+
+// Contracts for package checker, read by /verif/engine (comment-only).
+package checker
+
+// Check runs outside any recover: it must not panic (C04).
+//@ func checker.Check returns t err
+//@   property C03 C04
+//@   mode nopanic
+//@   requires tree != nil && tree.Source != nil
+
+// visit as seen from its callers: it annotates the tree and the visitor, returns a type (possibly nil)
+//@ func checker.visitor.visit returns t
+//@   property C03 C04
+//@   assigns *
+
+//@ func checker.dereference
+//@   pure
